@@ -67,6 +67,14 @@ class Scope:
         return out.items()
 
 
+OPAQUE_HEADS = ("param", "elem", "byte", "id", "rt", "lane", "arg", "key", "char")
+
+
+def opaque(v):
+    """a token standing for an unknown run-time value"""
+    return isinstance(v, tuple) and bool(v) and v[0] in OPAQUE_HEADS
+
+
 def bind(env, k, v):
     if isinstance(env, Scope):
         env.bind(k, v)
@@ -300,8 +308,15 @@ class SymEval:
             if r is not NotImplemented:
                 return r
             if op in ("==", "!="):
+                # a token that stands for an unknown run-time value compared with a literal: the code distinguishes a particular value
+                # the abstract input does not fix - undecided (the caller fails closed), never silently "different"
+                if (opaque(a) and isinstance(b, (int, str)) and not isinstance(b, bool)) or (opaque(b) and isinstance(a, (int, str)) and not isinstance(a, bool)) \
+                        or (opaque(a) and isinstance(b, tuple) and b and b[0] == "str") or (opaque(b) and isinstance(a, tuple) and a and a[0] == "str"):
+                    return ("cmp", op, a, b)
                 if self.concrete(a) and self.concrete(b):
                     return (a == b) == (op == "==")
+                return ("cmp", op, a, b)
+            if op in ("<", "<=", ">", ">=") and ((opaque(a) and isinstance(b, int)) or (opaque(b) and isinstance(a, int))):
                 return ("cmp", op, a, b)
             if isinstance(a, int) and isinstance(b, int) and not isinstance(a, bool):
                 if op == "-" and a < b:
